@@ -102,7 +102,7 @@ def rand_payload(rng, encoding='utf-8', charsub=False, verbatim=False):
 
 
 def clean_payload(out, encoding='utf-8', charsub=False, verbatim=False):
-    if encoding == 'latin-1':
+    if encoding in ('latin-1', 'iso-8859-1'):
         out = ''.join(c if ord(c) < 256 else rng_free_sub(c) for c in out)
     elif encoding == 'ascii':
         out = ''.join(c if ord(c) < 128 else 'e' for c in out)
@@ -307,8 +307,8 @@ RENDERERS = [('HTML5', 'default'), ('HTML5', 'default'), ('HTML5', 'minimal'), (
 
 def rand_doc_case(rng):
     renderer, theme = rng.choice(RENDERERS)
-    enc = rng.choice(['utf-8', 'utf-8', 'utf-8', 'latin-1', 'ascii', 'utf-16'])
-    if (renderer, theme) == ('HTML5', 'default') and enc in ('latin-1', 'ascii'):
+    enc = rng.choice(['utf-8', 'utf-8', 'utf-8', 'iso-8859-1', 'iso-8859-1', 'ascii', 'utf-16'])
+    if (renderer, theme) == ('HTML5', 'default') and enc in ('iso-8859-1', 'ascii'):
         enc = 'utf-8'      # the layout template itself holds characters (the TOC arrows) that these encodings cannot represent
     charsub = rng.random() < 0.4
     return dict(kind='doc', renderer=renderer, theme=theme, hi=rng.choice([0, 1]), enc=enc, charsub=int(charsub),
@@ -521,10 +521,17 @@ def streams(rng, tier, boost):
     for renderer, theme in (('HTML5', 'default'), ('XHTML', 'default'), ('HTML5', 'minimal'), ('XHTML', 'plain')):
         for payload in ('\u00a0', '~'):      # the character itself and LaTeX's tie
             out.append(('doc-blank-leaves', dict(kind='blank', renderer=renderer, theme=theme, payload=payload)))
+    # non-UTF-8 output encodings with non-ASCII text, both renderers: the bytes must be in the charset the file declares
+    enc_blocks = [['sec', 'section', '\u00e9<\u00ff', None], ['para', [['text', '\u00e9&\u00df'], ['verb', '\u00ff>']]], ['verbatim', '\u00e9"\u00e0'],
+                  ['sec', 'section', '\u00fc', ['emph', '\u00e7']], ['tab', [['\u00f1', 'x']]]]
+    for renderer, theme in (('HTML5', 'minimal'), ('XHTML', 'default'), ('XHTML', 'minimal'), ('XHTML', 'plain'), ('XHTML', 'python')):
+        for enc in ('iso-8859-1', 'utf-16'):
+            out.append(('doc-encodings', dict(kind='doc', renderer=renderer, theme=theme, hi=0, enc=enc, charsub=0, blocks=enc_blocks)))
+    out.append(('doc-encodings', dict(kind='doc', renderer='HTML5', theme='default', hi=0, enc='utf-16', charsub=0, blocks=enc_blocks)))
     # unencodable characters (known finding C12-unencodable-output-encoding)
     out.append(('doc-unencodable', dict(kind='doc', renderer='HTML5', theme='default', hi=1, enc='ascii', charsub=0,
                                         blocks=[['sec', 'section', 'T', None], ['para', [['text', '\u00e9']]]])))
-    out.append(('doc-unencodable', dict(kind='doc', renderer='XHTML', theme='default', hi=0, enc='latin-1', charsub=0,
+    out.append(('doc-unencodable', dict(kind='doc', renderer='XHTML', theme='default', hi=0, enc='iso-8859-1', charsub=0,
                                         blocks=[['sec', 'section', 'T', None], ['para', [['text', '\u4e2d']]]])))
     return out
 
@@ -738,6 +745,39 @@ def _dom_text(doc):
     return ''.join(out)
 
 
+_XMLDECL = re.compile(rb'<\?xml[^>]*?encoding\s*=\s*["\']([A-Za-z0-9._:-]+)["\']', re.I)
+_META = re.compile(rb'<meta\b[^>]*>', re.I)
+_CHARSET = re.compile(rb'charset\s*=\s*["\']?\s*([A-Za-z0-9._:-]+)', re.I)
+
+
+def declared_charset(raw):
+    """the encoding an HTML consumer takes for these bytes from the file itself: a byte-order mark, else an XML declaration or a
+    <meta charset> / <meta http-equiv=content-type> in the first 1024 bytes; None when the file declares nothing it knows"""
+    import codecs
+    if raw.startswith(codecs.BOM_UTF8):
+        return 'utf-8-sig'
+    if raw.startswith(codecs.BOM_UTF16_LE) or raw.startswith(codecs.BOM_UTF16_BE):
+        return 'utf-16'
+    head = raw[:1024]
+    names = [m.group(1) for m in _XMLDECL.finditer(head)]
+    for tag in _META.finditer(head):
+        m = _CHARSET.search(tag.group(0))
+        if m:
+            names.append(m.group(1))
+    for name in names:
+        try:
+            return codecs.lookup(name.decode('ascii')).name
+        except (LookupError, UnicodeDecodeError):
+            continue
+    return None
+
+
+def consumer_decode(raw, configured):
+    """decode a written file the way a browser does: by the charset it declares, falling back to the configured encoding"""
+    enc = declared_charset(raw) or configured
+    return raw.decode(enc, 'replace')
+
+
 def _render_doc(case, blocks):
     from render_common import render
     over = {}
@@ -750,7 +790,7 @@ def _render_doc(case, blocks):
         if not name.endswith('.html'):
             continue
         raw = res.files[name]
-        text = raw.decode(case['enc'])
+        text = consumer_decode(raw, case['enc'])
         files[name] = (raw, text, Events(text))
     return res.inspected, files
 
@@ -835,7 +875,7 @@ def run_impl(case):
                         j += 1
                     skel_diff = '%s: event %d: %s (harmless twin: %s)' % (name, j, a[j:j + 3], b[j:j + 3])
                     break
-        ascii_ok = all(all(byte < 128 for byte in raw) for raw, _, _ in files.values()) if case['enc'] in ('utf-8', 'latin-1', 'ascii') else True
+        ascii_ok = all(all(byte < 128 for byte in raw) for raw, _, _ in files.values()) if case['enc'] in ('utf-8', 'latin-1', 'iso-8859-1', 'ascii') else True
         return ['doc', dict(dom={i: sorted(v) for i, v in leaves.items()}, data=data_occ, attr=attr_occ, raw=raw_occ,
                             twin_data=[[f, i] for f, i, _ in tdata], twin_attr=[[f, c, i] for f, c, i, _ in tattr],
                             skel_diff=skel_diff, ascii=ascii_ok)]
@@ -875,7 +915,7 @@ def _blank_text(case, hi):
     out = []
     for name in sorted(res.files):
         if name.endswith('.html'):
-            txt = ''.join(Events(res.files[name].decode('utf-8')).data)
+            txt = ''.join(Events(consumer_decode(res.files[name], 'utf-8')).data)
             m = re.search(r'QZ0B(.*)QZ3A', txt, re.S)
             if m:
                 out.append(m.group(1))
